@@ -225,7 +225,7 @@ func HarnessC16Establish() {
 // then the new revision can take the objects over.
 //
 //gosym:harness
-//gosym:cover released upgraded
+//gosym:cover released upgraded foreign-controller-first
 func HarnessC16Release() {
 	n := zz.Bound(2, 2)
 	s := kube.New()
@@ -235,11 +235,21 @@ func HarnessC16Release() {
 	// missing, or may have lost the revision's owner reference)
 	old := zzRevision("rev-old", zzOldUID)
 	var objs []runtime.Object
+	var foreign []int
 	for i := 0; i < n; i++ {
 		nm := "obj" + string(rune('0'+i))
 		objs = append(objs, zzCRD(zzCRDNames[i]))
 		old.Status.ObjectRefs = append(old.Status.ObjectRefs, *zzTypedRef(zzCRDNames[i]))
-		switch zz.Choose(nm+".state", 3) {
+		switch st := zz.Choose(nm+".state", 4); st {
+		case 3: // controlled by another owner, whose reference precedes the old revision's plain one
+			ex := zzCRD(zzCRDNames[i])
+			ex.SetOwnerReferences([]metav1.OwnerReference{
+				{APIVersion: v1.SchemeGroupVersion.String(), Kind: v1.ProviderRevisionKind, Name: "other-rev", UID: "uid-foreign", Controller: ptr.To(true)},
+				{APIVersion: v1.SchemeGroupVersion.String(), Kind: v1.ProviderRevisionKind, Name: "rev-old", UID: zzOldUID, Controller: ptr.To(false)},
+			})
+			s.Put(ex)
+			foreign = append(foreign, i)
+			zz.Cover("foreign-controller-first")
 		case 0: // controlled by the old revision
 			ex := zzCRD(zzCRDNames[i])
 			ex.SetOwnerReferences([]metav1.OwnerReference{
@@ -259,6 +269,10 @@ func HarnessC16Release() {
 		return
 	}
 	zz.Cover("released")
+	for _, i := range foreign {
+		// releasing never touches another owner's control
+		zz.Assert("release-leaves-another-owners-control", kube.ControllerUID(s.Doc(zzCRDGroup, zzCRDKind, "", zzCRDNames[i])) == "uid-foreign")
+	}
 	for i := 0; i < n; i++ {
 		doc := s.Doc(zzCRDGroup, zzCRDKind, "", zzCRDNames[i])
 		if doc == nil {
@@ -280,6 +294,13 @@ func HarnessC16Release() {
 	// upgrade: the new revision becomes active
 	parent := zzRevision("rev-new", zzNewUID)
 	_, err = e.Establish(context.Background(), objs, parent, true)
+	if len(foreign) > 0 {
+		zz.Assert("object-controlled-by-another-owner-refuses-the-upgrade", err != nil)
+		for _, i := range foreign {
+			zz.Assert("release-leaves-another-owners-control", kube.ControllerUID(s.Doc(zzCRDGroup, zzCRDKind, "", zzCRDNames[i])) == "uid-foreign")
+		}
+		return
+	}
 	zz.Assert("establish-after-release-no-error", err == nil)
 	if err != nil {
 		return
